@@ -130,6 +130,10 @@ def run_shard(shard):
             for desc in S.row_descriptors(tab, r, shard[3]):
                 check_desc(res, desc, dt, from_frame, FF)
                 n += 1
+                if tab == "GEAR_SPECIAL" and n % 4 == 1:
+                    # a special command means the same whatever ENABLE DEVICE TYPE preceded it (IEC 62386-102 Table 16)
+                    for dt2 in (1, 6, 8, 255):
+                        check_desc(res, desc, dt2, from_frame, FF)
             res["evaluations"] += n
             res["distinct"].add((r[0], r[1]))
         sample(res, {"rows": [f"{r[0]}.{r[1]}" for _, r in rows]})
@@ -137,6 +141,9 @@ def run_shard(shard):
         for a in R.ALL_GEAR_ADDRS:
             for p in range(256):
                 check_desc(res, ("gear.general", "DAPC", (a, p)), 0, from_frame, FF)
+                if p % 16 in (0, 15) or p in (223, 224):
+                    for dt2 in (1, 6, 8, 255):              # ... and so does a direct arc power command
+                        check_desc(res, ("gear.general", "DAPC", (a, p)), dt2, from_frame, FF)
                 res["evaluations"] += 1
         from dali.gear.general import DAPC
         from dali.address import GearShort
